@@ -171,7 +171,7 @@ func main() {
 	loadS := time.Since(start).Seconds()
 	to := *timeout
 	if to == 0 {
-		to = 10
+		to = 20
 		if *tier == "thorough" {
 			to = 60
 		}
